@@ -18,6 +18,8 @@ from pyvc.api import (PathEnd, attr, call, cls, expect_ok, expect_raise, fn, met
 from pyvc.core import GeomSort, SVal
 from pyvc.lib import numpy_ as np
 
+from props._contracts import polygon_contract_scenarios, scn_polygon_contract  # noqa: F401
+
 PROPERTY = 'C07'
 
 
@@ -29,10 +31,14 @@ def scenarios(tier):
     for pat in ('left', 'back', 'node', 'none'):
         out.append({'name': f'smear_mask[{pat}]', 'fn': 'scn_smear', 'kwargs': {'pat': pat}})
     out.append({'name': 'c_mask_from_centres', 'fn': 'scn_c_mask', 'kwargs': {}})
+    for fill, si, edges in (('int_fill', 0, False), ('int_fill', 1, True), ('nan', 1, False), ('none', 0, True)):
+        out.append({'name': f'mask_from_face_indexes[{fill}, start_index={si}, {"with" if edges else "without"} edges]', 'fn': 'scn_mesh_mask',
+                    'kwargs': {'fill': fill, 'si': si, 'edges': edges}})
     for conv in ('CFGrid1D', 'CFGrid2D', 'ShocSimple', 'ShocStandard'):
         for buffered in (False, True):
             out.append({'name': f'{conv}.make_clip_mask[buffer {">0" if buffered else "=0"}]', 'fn': 'scn_grid_clip',
                         'kwargs': {'conv': conv, 'buffered': buffered}})
+    out += polygon_contract_scenarios()
     return out
 
 
@@ -223,6 +229,100 @@ def scn_grid_clip(c, conv, buffered):
             a, b = _cell(c, ey, ex, kind)
             c.check(f'{kind} locations are marked iff they belong to a marked cell',
                     s_eq(truthy(km.arr.at((a, b))), _smear_spec(pat, fm.arr, a, b, ny, nx)))
+
+
+def scn_mesh_mask(c, fill, si, edges):
+    """ugrid.mask_from_face_indexes: given the kept faces (any set, ascending), the mask renumbers the kept faces, exactly the nodes
+    (and edges) of kept faces are kept, and new indexes are the ranks among the kept elements (dense, order preserving)."""
+    from props.C10 import Table
+    from pyvc.lib.seq import Selection
+    from pyvc.lib.numpy_ import INT64, NDArray
+    from contracts.ugrid import FILL_KEY
+    it = new_interp(use=[FILL_KEY])           # sensible_fill_value through its contract (verified by C10)
+    has_edges = edges
+    ds = inputs.ugrid_mesh(c, fill=fill, start_index=si, edges='both' if has_edges else 'none', tables=('face_edge',) if has_edges else ())
+    info = ds.info
+    tabs = {}
+    if has_edges:
+        t = Table(c, 'face_edge', info['nface'], info['maxn'], 'int_fill', si, False, 'nface', 'maxn', info['nedge'])
+        ds._vars['face_edge'] = t.variable
+        tabs['face_edge'] = t
+        en = Table(c, 'edge_node', info['nedge'], 2, 'none', si, False, 'nedge', 'Two', info['nnode'])
+        ds._vars['edge_node'] = en.variable
+    topo = it.instantiate(cls(it, 'emsarray.conventions.ugrid', 'Mesh2DTopology'), [ds], {})
+    keepF = c.fresh_fn('keep_face', z3.IntSort(), z3.BoolSort())
+    selF = Selection(info['nface'], lambda k: mk_bool(keepF(zint(k))), name='kept_face')
+    face_indexes = NDArray((selF.count,), lambda i: selF.sel(i[0]), INT64)
+    face_indexes.selection, face_indexes.sorted_unique = selF, True      # what numpy.sort(strtree.query(...)) / buffer_faces hand over: ascending, no repeats
+    f = fn(it, 'emsarray.conventions.ugrid', 'mask_from_face_indexes')
+    mask = expect_ok(c, 'mask_from_face_indexes returns', lambda: call(it, f, face_indexes, topo))
+    want = {'new_face_index', 'new_node_index'} | ({'new_edge_index'} if has_edges else set())
+    c.check('one renumbering table per element kind the mesh has', set(mask._vars) == want)
+    if set(mask._vars) != want:
+        raise PathEnd()
+    # ---- faces ---------------------------------------------------------------------------------------------------------------------
+    nf = mask._vars['new_face_index']
+    c.check('new_face_index: one entry per face of the input', nf.dims == ('old_face_index',) and s_eq(nf.arr.shape[0], info['nface']))
+    fq = c.fresh_int('fq')
+    c.assume(fq >= 0)
+    c.assume(fq < info['nface'])
+    v = nf.arr.fn((fq,))
+    c.check('a face is dropped (NaN) exactly when it is not among the given faces', s_eq(v.is_nan(), s_not(mk_bool(keepF(fq.z)))))
+    c.check('a kept face gets its rank among the kept faces: contiguous from 0, original order', s_implies(mk_bool(keepF(fq.z)), s_and(v.is_fin(), s_eq(v.val, selF.rank(fq)))))
+    c.check('the fill value recorded for saving exceeds every index', nf.encoding.get('_FillValue') is not None)
+    # ---- nodes / edges: kept exactly when they belong to a kept face ---------------------------------------------------------------
+    kf, j = c.fresh_int('kf'), c.fresh_int('jcol')
+    c.assume(kf >= 0)
+    c.assume(kf < selF.count)
+    c.assume(j >= 0)
+    c.assume(j < info['maxn'])
+    f_old = selF.sel(kf)
+    for what, size, element, present in (('node', info['nnode'], lambda: info['mesh_node'](f_old, j), lambda: mk_bool(zint(j) < zint(info['mesh_count'](f_old)))),) + \
+            ((('edge', info['nedge'], lambda: tabs['face_edge'].val(f_old, j), lambda: mk_bool(zint(j) < zint(tabs['face_edge'].cnt(f_old)))),) if has_edges else ()):
+        tab = mask._vars[f'new_{what}_index']
+        c.check(f'new_{what}_index: one entry per {what} of the input', tab.dims == (f'old_{what}_index',) and s_eq(tab.arr.shape[0], size))
+        e = element()
+        got = tab.arr.fn((e,))
+        order = (['edge', 'node'] if has_edges else ['node'])
+        regs = list(getattr(c, 'valuesets', []))
+        vs = (regs[order.index(what)], regs[order.index(what)].source_array) if len(regs) == len(order) else None
+        c.check(f'new_{what}_index is built from the set of {what}s named by the kept faces', vs is not None)
+        if vs is None:
+            continue
+        uniq, src = vs
+        # ghost: entry (kf, j) of the kept rows sits at some position of the compressed list -- instantiate "that value occurs"
+        _ghost_occurs(c, uniq, src, kf, j, info['maxn'])
+        c.check(f'every {what} of a kept face is kept', s_implies(present(), got.is_fin()))
+        c.check(f'... and is numbered by its rank among the kept {what}s (dense, order preserving)',
+                s_implies(present(), s_eq(got.val, uniq.selection.rank(e))))
+        # conversely: a kept element is named by some kept face (witness from the value-set model)
+        n = c.fresh_int(what + 'q')
+        c.assume(n >= 0)
+        c.assume(n < size)
+        gv = tab.arr.fn((n,))
+        a_src, wit, occurs, U = uniq.valueset
+        p = mk_int(wit(n.z))
+        comp_self, flat, keepmask = src.compressed_of
+        flatpos = src.selection.sel(p)
+        kk, jj = mk_int(zint(flatpos) / zint(info['maxn'])), mk_int(zint(flatpos) % zint(info['maxn']))
+        f_w = selF.sel(kk)
+        elem_w = info['mesh_node'](f_w, jj) if what == 'node' else tabs['face_edge'].val(f_w, jj)
+        pres_w = mk_bool(zint(jj) < zint(info['mesh_count'](f_w) if what == 'node' else tabs['face_edge'].cnt(f_w)))
+        c.check(f'a kept {what} belongs to a kept face (no {what} outside the selection survives)',
+                s_implies(gv.is_fin(), s_and(mk_bool(z3.And(zint(kk) >= 0, zint(kk) < zint(selF.count))), pres_w, s_eq(elem_w, n))))
+
+
+def _valueset_of(tab):
+    """the value-set array behind new_X_index (ghost access through the store that built the table)"""
+    return getattr(tab.arr, '_ghost_index_source', None)
+
+
+def _ghost_occurs(c, uniq, src, kf, j, maxn):
+    """the entry (kf, j) of the kept rows is unmasked => it sits at compressed position rank(kf * maxn + j) => its value occurs"""
+    flatn = kf * maxn + j
+    r = src.selection.rank(flatn)
+    src.selection.sel(r)
+    uniq.value_at(r)
 
 
 NATIVE = {'blur_mask': 'blur_exhaustive', 'smear_mask': 'smear_exhaustive', '': 'clip_masks'}
